@@ -72,7 +72,8 @@ def edge_instances(ctx):
         out += [
             inst("srv-t", 3, 2, 2, 0, False, samekey=False),
             inst("srvttl-t", 3, 2, 1, 0, False, chalttl=1, tokttl=2, places="MCPlacesS"),
-            inst("cli-t", 0, 1, 2, 2, True, verifiers="MCVerifiersNone"),
+            inst("srvboth-t", 2, 2, 1, 0, False, verifiers="MCVerifiersBoth", samekey=False, places="MCPlaces4"),
+            inst("cli-t", 0, 1, 2, 1, True, verifiers="MCVerifiersNone", samekey=False, rich=True),
             inst("mix-t", 1, 1, 1, 1, True, places="MCPlacesS", samekey=False),
         ]
     return out
